@@ -153,6 +153,38 @@ func jsonObjects(p *Program) map[string]*JSONObject {
 	return out
 }
 
+// nilFixAssigns: the block assigns a non-nil slice value (composite literal or make).
+func nilFixAssigns(info *types.Info, b *ast.BlockStmt) bool {
+	ok := false
+	ast.Inspect(b, func(n ast.Node) bool {
+		as, isAs := n.(*ast.AssignStmt)
+		if !isAs {
+			return true
+		}
+		for _, r := range as.Rhs {
+			r = ast.Unparen(r)
+			if cl, isCl := r.(*ast.CompositeLit); isCl {
+				if t := info.TypeOf(cl); t != nil {
+					if _, isSlice := t.Underlying().(*types.Slice); isSlice {
+						ok = true
+					}
+				}
+			}
+			if call, isCall := r.(*ast.CallExpr); isCall {
+				if id, isId := call.Fun.(*ast.Ident); isId && id.Name == "make" {
+					if t := info.TypeOf(call); t != nil {
+						if _, isSlice := t.Underlying().(*types.Slice); isSlice {
+							ok = true
+						}
+					}
+				}
+			}
+		}
+		return true
+	})
+	return ok
+}
+
 // timeLayouts: the layout arguments of every time.Time.Format / time.Parse
 // call under n, as quoted constant values.
 func timeLayouts(info *types.Info, n ast.Node) []string {
@@ -378,7 +410,13 @@ func buildJSONWriter(p *Program, o *JSONObject) {
 				ast.Inspect(body, func(n ast.Node) bool {
 					if ifs, ok := n.(*ast.IfStmt); ok {
 						if be, ok := ifs.Cond.(*ast.BinaryExpr); ok && be.Op == token.EQL && isNilIdent(be.Y) {
-							row.NilSliceFix = true
+							// the test must see the slice itself: a nil slice stored in an interface
+							// variable (`var v any = s; if v == nil`) compares unequal to nil
+							if t := info.TypeOf(be.X); t != nil {
+								if _, isSlice := t.Underlying().(*types.Slice); isSlice && nilFixAssigns(info, ifs.Body) {
+									row.NilSliceFix = true
+								}
+							}
 						}
 					}
 					return true
